@@ -21,6 +21,23 @@ class AnchorMissing(AnalysisError):
     pass
 
 
+_BASE_NESTED: dict | None = None
+
+
+def _baseline_nested() -> dict:
+    global _BASE_NESTED
+    if _BASE_NESTED is None:
+        _BASE_NESTED = {}
+        p = os.path.join(os.path.dirname(os.path.dirname(os.path.abspath(__file__))),
+                         "baseline_nested.txt")
+        if os.path.exists(p):
+            for line in open(p):
+                if "\t" in line:
+                    k, v = line.rstrip("\n").split("\t")
+                    _BASE_NESTED[k] = v.split(",")
+    return _BASE_NESTED
+
+
 @dataclass
 class FunctionInfo:
     qualname: str  # e.g. liesel.goose.mh.mh_step or liesel.goose.rw.RWKernel.tune
@@ -64,10 +81,39 @@ class FunctionInfo:
 
     def nested(self, name: str) -> "FunctionInfo":
         q = f"{self.qualname}.<locals>.{name}"
-        fi = self.module.repo.functions.get(q)
+        funcs = self.module.repo.functions
+        fi = funcs.get(q)
+        if fi is None:
+            fi = self._nested_fallback(name)
         if fi is None:
             raise AnchorMissing(f"nested function {q} not found")
         return fi
+
+    def _nested_fallback(self, name: str) -> "FunctionInfo | None":
+        """The closure a rule asks for by its old name: (1) RENAMED in place -- the parent
+        still defines the same number of closures in the same order as when the rules were
+        written (lsa/baseline_nested.txt), so the one at the old position is it; (2) HOISTED
+        -- a function of that name now lives in an enclosing function or at module level."""
+        funcs = self.module.repo.functions
+        pre = self.qualname + ".<locals>."
+        mine = sorted((f.node.lineno, f) for k, f in funcs.items()
+                      if k.startswith(pre) and "<locals>" not in k[len(pre):]
+                      and "<lambda" not in k)
+        base = _baseline_nested().get(self.qualname)
+        if base and name in base and len(base) == len(mine):
+            cand = mine[base.index(name)][1]
+            if cand.name not in base:
+                return cand
+        p = self.parent
+        while p is not None:
+            cand = funcs.get(f"{p.qualname}.<locals>.{name}")
+            if cand is not None:
+                return cand
+            p = p.parent
+        cand = funcs.get(f"{self.module.name}.{name}")
+        if cand is None and self.cls is not None:
+            cand = funcs.get(f"{self.cls.qualname}.{name}")
+        return cand
 
 
 @dataclass
@@ -211,6 +257,40 @@ class Repo:
             self._resolve_bases(ci)
         self.merged_forwarders: list[tuple[str, str]] = []
         self._merge_forwarders()
+        self.renamed: list[tuple[str, str]] = []
+        self._alias_renamed()
+
+    # A method / function the rules know by name is gone, and in the same class / module
+    # exactly one function appeared that the rules do not know: it was RENAMED.  It is
+    # registered under the old name as well, so the rules keep finding it (its call sites
+    # use the new name and are read through like any new helper).
+    def _alias_renamed(self) -> None:
+        path = os.path.join(os.path.dirname(os.path.dirname(os.path.abspath(__file__))),
+                            "baseline_functions.txt")
+        if not os.path.exists(path):
+            return
+        base = {l.strip() for l in open(path) if l.strip()}
+        cur = {f.qualname for f in self.functions.values() if "<locals>" not in f.qualname
+               and "<lambda" not in f.qualname}
+        scopes: dict[str, tuple[list, list]] = {}
+        for q in base - cur:
+            scopes.setdefault(q.rpartition(".")[0], ([], []))[0].append(q)
+        for q in cur - base:
+            scopes.setdefault(q.rpartition(".")[0], ([], []))[1].append(q)
+        for scope, (gone, new) in scopes.items():
+            if len(gone) != 1 or len(new) != 1:
+                continue
+            if scope not in self.classes and scope not in self.modules:
+                continue
+            fis = [(k, f) for k, f in self.functions.items() if f.qualname == new[0]]
+            old_name = gone[0].rpartition(".")[2]
+            for k, f in fis:
+                suffix = k[len(f.qualname):]          # '', '#setter', ...
+                self.functions.setdefault(gone[0] + suffix, f)
+            if scope in self.classes:
+                ci = self.classes[scope]
+                ci.methods.setdefault(old_name, list(ci.methods.get(new[0].rpartition(".")[2], [])))
+            self.renamed.append((gone[0], new[0]))
 
     # A function whose whole body is `return <private helper>(<its own parameters>)` and
     # whose helper is used nowhere else is the SAME function written in two pieces (the
